@@ -45,14 +45,26 @@ fn run(case: &mut Case) -> Result<Outcome, String> {
         6 => 1000,
         _ => 1 + case.src.usize_below(3 * n),
     };
-    let solver = case.src.usize_below(5);
+    let first = case.src.usize_below(5);
     let sp = to_sparse(&a, &mut case.src);
     let bv = Vector::create(b.clone());
-    let mut xv = Vector::create(x0.clone());
     let kind_name = if badly_scaled { "badly-scaled" } else { KINDS[kind] };
-    case.describe(|| format!("{} n={} kind={} rhs_kind={} guess_kind={} tol={:.3e} budget={} A={:?} b={:?} x0={:?}", SOLVERS[solver], n, kind_name, rhs_kind, guess_kind, tol, budget, a, b, x0));
+    case.describe(|| format!("all five entry points (first {}) n={} kind={} rhs_kind={} guess_kind={} tol={:.3e} budget={} A={:?} b={:?} x0={:?}", SOLVERS[first], n, kind_name, rhs_kind, guess_kind, tol, budget, a, b, x0));
+    for off in 0..5 {
+        let solver = (first + off) % 5;
+        one_solver(case, solver, &sp, &bv, &a, &b, &x0, n, tol, budget, kind_name)?;
+    }
+    Ok(Outcome::Pass)
+}
 
-    let res = match catch(|| call(solver, &sp, &bv, &mut xv, budget, tol)) {
+#[allow(clippy::too_many_arguments)]
+fn one_solver(case: &mut Case, solver: usize, sp: &ohsl::Sparse<f64>, bv: &Vector<f64>, a: &D, b: &[f64], x0: &[f64], n: usize, tol: f64, budget: usize, kind_name: &str) -> Result<(), String> {
+    let a = a.clone();
+    let b = b.to_vec();
+    let x0 = x0.to_vec();
+    let mut xv = Vector::create(x0.clone());
+
+    let res = match catch(|| call(solver, sp, bv, &mut xv, budget, tol)) {
         Ok(r) => r,
         Err(e) => return Err(format!("{} panicked on a conformable system: {}", SOLVERS[solver], e)),
     };
@@ -67,7 +79,7 @@ fn run(case: &mut Case) -> Result<Outcome, String> {
     match res {
         Err(_) => {
             case.class(format!("{} {} Err", SOLVERS[solver], kind_name));
-            Ok(Outcome::Pass)
+            Ok(())
         }
         Ok(it) => {
             case.class(format!("{} {} Ok", SOLVERS[solver], kind_name));
@@ -95,7 +107,7 @@ fn run(case: &mut Case) -> Result<Outcome, String> {
                 let mut xm = xmax_cheap;
                 for k in 1..it {
                     let mut xr = Vector::create(x0.clone());
-                    let _ = call(solver, &sp, &bv, &mut xr, k, tol);
+                    let _ = call(solver, sp, bv, &mut xr, k, tol);
                     let nx = norm2(&xr.vec);
                     if nx.is_finite() {
                         xm = xm.max(nx);
@@ -106,13 +118,13 @@ fn run(case: &mut Case) -> Result<Outcome, String> {
             }
             if res_true <= claim + drift(xmax_cheap) {
                 crate::calib::note("c08 (res-claim)/drift-unit", (res_true - claim) / (EPS * (it as f64 + 1.0) * (fa * xmax_cheap + nb)).max(1e-300), || format!("{} n={} {}", SOLVERS[solver], n, kind_name));
-                return Ok(Outcome::Pass);
+                return Ok(());
             }
             // measure the largest iterate by deterministic budget replay
             let mut xmax = xmax_cheap;
             for k in 1..it {
                 let mut xr = Vector::create(x0.clone());
-                let _ = call(solver, &sp, &bv, &mut xr, k, tol);
+                let _ = call(solver, sp, bv, &mut xr, k, tol);
                 let nx = norm2(&xr.vec);
                 if nx.is_finite() {
                     xmax = xmax.max(nx);
@@ -120,7 +132,7 @@ fn run(case: &mut Case) -> Result<Outcome, String> {
             }
             case.class("largest iterate measured by budget replay");
             if res_true <= claim + drift(xmax) {
-                return Ok(Outcome::Pass);
+                return Ok(());
             }
             Err(format!(
                 "{} returned Ok({}) but the true residual ||b - A x|| = {:.6e} exceeds tol*||b|| = {:.6e} + drift allowance {:.3e} (largest iterate {:.3e}); x = {:?}",
@@ -137,7 +149,7 @@ impl Prop for C08 {
     fn rule(&self) -> String {
         "random square sparse systems of order 1..=30 (thorough 1..=60) of kinds {SPD diagonally dominant, SPD B^T B + mu I, symmetric indefinite, strictly diagonally dominant nonsymmetric with positive / mixed-sign diagonal, \
          general nonsymmetric, singular (zero row / zero column / equal rows), badly scaled by 2^+-20 rows and columns}; right-hand side zero / consistent / random of scale 1e-6..1e6; initial guess zero / random / exact / huge (1e8); \
-         tol = 10^[-12,-2]; budget in {0,1,2,3,n,10n,1000,random}; one of the five entry points (CG, BiCG itol 1/2, BiCGSTAB, QMR) per case on every kind. The implication is judged whenever the answer is Ok: \
+         tol = 10^[-12,-2]; budget in {0,1,2,3,n,10n,1000,random}; all five entry points (CG, BiCG itol 1/2, BiCGSTAB, QMR) on every generated system of every kind. The implication is judged whenever the answer is Ok: \
          iterations <= budget, x finite, ||b - A x||_2 (dense copy, double-double) <= tol*||b||*(1+1e-9) + 200(n+2)*eps*(it+1)*(||A||_F*Xmax + ||b||), Xmax first max(||x0||,||x||) and, only if that fails, measured by re-running the solver with budgets 1..it; \
          budget 0 or Ok(0) => x bitwise untouched. Non-trivial: Ok with >= 2 iterations and n >= 5. distinct = distinct decoded choice sequence."
             .into()
@@ -152,7 +164,7 @@ impl Prop for C08 {
         tier.pick(2400, 8200)
     }
     fn random_cases(&self, tier: Tier) -> usize {
-        tier.pick(40_000, 600_000)
+        tier.pick(24_000, 300_000)
     }
     fn run(&self, case: &mut Case) -> Outcome {
         match run(case) {
